@@ -6,6 +6,7 @@ import re
 from typing import Dict, List, Optional, Set
 
 from ..callgraph import all_nodes
+from ..cfg import conj_atoms
 from ..core import Ctx
 from ..flow import call_name, get_flow
 from ..project import AnalysisError, FuncInfo, ancestors, dotted, parent, src
@@ -68,27 +69,47 @@ def r1_r2(ctx: Ctx, pf: FuncInfo) -> None:
     if len(build) != 1:
         ctx.unknown('C18.R2', pf, f'{len(build)} FormatSpec constructions')
     bst = fl.stmt_of(build[0])
-    tests = {
-        'missing-required': lambda s: src(s.test) == 'missing' and 'Missing required' in src(s.body[-1]),
-        'description-or-captures': lambda s: src(s.test) == 'not has_description and (not has_custom)' or src(s.test) == 'not has_description and not has_custom',
-        'captures-need-template': lambda s: src(s.test) == 'has_custom and (not description_template)' or src(s.test) == 'has_custom and not description_template',
-        'template-reference': lambda s: src(s.test) == 'ref not in custom_captures',
+    # the four rejections, decided on the guards of the raise statements (whatever the spelling of the test: `not a and not b`, `not (a or b)`, nested ifs)
+    wants = {
+        'missing-required': {('missing', True)},
+        'description-or-captures': {('has_description', False), ('has_custom', False)},
+        'captures-need-template': {('has_custom', True), ('description_template', False)},
+        'template-reference': {('ref in custom_captures', False), ('description_template', True)},
     }
     bound = {n.id for n in ast.walk(pf.node) if isinstance(n, ast.Name) and isinstance(n.ctx, ast.Store)}
     flags_of = {'description-or-captures': ('has_description', 'has_custom'), 'captures-need-template': ('has_custom',)}
-    for what, pred in tests.items():
-        ifs = [s for s in cfg.stmts() if isinstance(s, ast.If) and pred(s)]
-        if not ifs and any(fl_ not in bound for fl_ in flags_of.get(what, ())):
+    raises = [r_ for r_ in cfg.stmts() if isinstance(r_, ast.Raise) and not any(a_ is lp for a_ in ancestors(r_)) and 'ValueError' in src(r_)]
+
+    def own_guards(r_):
+        # the conditions of the statements enclosing the raise (earlier rejections that ended in a raise of their own are not conditions of this one)
+        encl = {id(a_) for a_ in ancestors(r_)}
+        lits = set()
+        for b_, lab in cfg.guards(r_):
+            st_ = cfg.stmt.get(b_)
+            if isinstance(st_, ast.If) and id(st_) in encl and lab in (True, False):
+                lits |= {(src(at), tr) for at, tr in conj_atoms(st_.test, lab)}
+        return lits
+    g_of = {id(r_): own_guards(r_) for r_ in raises}
+    vocab = {'has_description', 'has_custom', 'description_template', 'custom_captures', 'missing'}
+    stray = [r_ for r_ in raises if g_of[id(r_)] and g_of[id(r_)] not in wants.values()
+             and any(w in vocab for t_, _ in g_of[id(r_)] for w in re.findall(r'[A-Za-z_]+', t_))]
+    for what, want_g in wants.items():
+        hit = [r_ for r_ in raises if g_of[id(r_)] == want_g]
+        if not hit and any(fl_ not in bound for fl_ in flags_of.get(what, ())):
             # the flags these tests were written on (has_description / has_custom) are gone: the rejection may well be there in another spelling
             ctx.unknown('C18.R2', pf, f'{what}: the mode flags {flags_of[what]} are not variables of parse_format_string any more')
-        ok = bool(ifs) and isinstance(ifs[0].body[-1], ast.Raise) and 'ValueError' in src(ifs[0].body[-1])
-        dom = bool(ifs) and (cfg.dominates(ifs[0], bst) or any(isinstance(a, ast.For) and cfg.dominates(a, bst) for a in ancestors(ifs[0])))
-        if ifs and not dom and what == 'template-reference':
-            # checked for every {name} of the template, under nothing but "a template was given"
-            top = [a for a in ancestors(ifs[0]) if parent(a) is pf.node]
-            encl = [src(a.test) for a in ancestors(ifs[0]) if isinstance(a, ast.If)]
-            dom = bool(top) and cfg.dominates(top[0], bst) and encl == ['description_template']
-        ctx.check(ok and dom, 'C18.R2', pf, f'reject:{what}', f'{what}: raises ValueError before the FormatSpec is built', f'{what} is not rejected before construction', ifs[0] if ifs else None)
+        # the same rejection under a further condition rejects less than it should
+        core = {('ref in custom_captures', False)} if what == 'template-reference' else want_g
+        weakened = [r_ for r_ in stray if core <= g_of[id(r_)] and g_of[id(r_)] - want_g]
+        if not hit and stray and not weakened:
+            ctx.unknown('C18.R2', pf, f'{what}: no ValueError under exactly {sorted(want_g)}, but one under {sorted(g_of[id(stray[0])])} that the rule cannot place')
+        dom = False
+        if hit:
+            top = [a_ for a_ in [hit[0]] + list(ancestors(hit[0])) if parent(a_) is pf.node]
+            dom = bool(top) and cfg.dominates(top[0], bst)
+        ctx.check(bool(hit) and dom, 'C18.R2', pf, f'reject:{what}', f'{what}: raises ValueError before the FormatSpec is built',
+                  f'{what} is not rejected before construction (no ValueError raised under exactly {sorted(want_g)}'
+                  + (f'; the one at line {weakened[0].lineno} needs more than that)' if weakened else ')'), hit[0] if hit else None)
     req = [s for s in cfg.stmts() if isinstance(s, ast.Assign) and src(s.targets[0]) == 'required']
     ctx.check(bool(req) and src(req[0].value) in ("{'date', 'amount'}", "{'amount', 'date'}"), 'C18.R2', pf, 'required-set', 'date and amount are required', f'required fields are {src(req[0].value) if req else None}')
     ms = [s for s in cfg.stmts() if isinstance(s, ast.Assign) and src(s.targets[0]) == 'missing']
@@ -111,7 +132,11 @@ def r1_r2(ctx: Ctx, pf: FuncInfo) -> None:
     for s_ in cfg.stmts():
         if isinstance(s_, ast.Assign) and any(isinstance(t, ast.Name) and t.id in flags for t in s_.targets):
             feeds |= {n.id for n in ast.walk(s_.value) if isinstance(n, ast.Name)}
-    feeds -= {'negate_prefix', 'True', 'False'}
+    feeds -= {'True', 'False'}
+    # what is read straight off the pattern match (the sign text itself) is not a mode flag
+    for s_ in ast.walk(lp):
+        if isinstance(s_, ast.Assign) and any(isinstance(n, ast.Attribute) and n.attr in ('group', 'groups') for n in ast.walk(s_.value)):
+            feeds -= {n.id for t in s_.targets for n in ast.walk(t) if isinstance(n, ast.Name)}
     in_loop = [s_ for s_ in cfg.stmts() if isinstance(s_, ast.Assign) and any(a is lp for a in ancestors(s_)) and any(isinstance(t, ast.Name) and t.id in feeds for t in s_.targets)]
     only_amount = bool(in_loop) and all(("field_name == 'amount'", True) in cfg.guard_literals_within(s_, lp) for s_ in in_loop)
 
@@ -124,11 +149,42 @@ def r1_r2(ctx: Ctx, pf: FuncInfo) -> None:
         return False
     ok = only_amount and tied('negate_amount', '-') and tied('abs_amount', '+')
     ctx.check(ok, 'C18.R2', pf, 'sign-mode', '{-amount} -> negate, {+amount} -> abs, only on the amount field', 'sign prefixes are not mapped to negate/abs on the amount field')
-    ok = "if field_name == 'date' and format_spec:\n" in text and 'date_format = format_spec' in text
-    ctx.check(ok, 'C18.R2', pf, 'date-format', '{date:FORMAT} sets the date format', 'the date format specifier is not taken from the date field')
-    ok = 'field_name = match.group(2).lower()' in text
-    ctx.check(ok, 'C18.R2', pf, 'name-lowered', 'field names are lower-cased', 'field names are not lower-cased')
-
+    # which group of the {field} pattern a local of the column loop is read from (1 sign, 2 name, 3 format): `x = match.group(k)[.lower()]` or `a, b, c = match.groups()`
+    def group_of(name, depth=0):
+        out = set()
+        for s_ in ast.walk(lp):
+            if not isinstance(s_, ast.Assign) or len(s_.targets) != 1:
+                continue
+            t = s_.targets[0]
+            if isinstance(t, ast.Name) and t.id == name:
+                v = s_.value
+                lowered = False
+                while isinstance(v, ast.Call) and isinstance(v.func, ast.Attribute) and v.func.attr in ('lower', 'strip') and not v.args:
+                    lowered = lowered or v.func.attr == 'lower'
+                    v = v.func.value
+                if isinstance(v, ast.Call) and isinstance(v.func, ast.Attribute) and v.func.attr == 'group' and len(v.args) == 1 and isinstance(v.args[0], ast.Constant):
+                    out.add((v.args[0].value, lowered))
+                elif isinstance(v, ast.Name) and depth < 3:
+                    out |= {(k, lo or lowered) for k, lo in group_of(v.id, depth + 1)}
+                else:
+                    out.add((None, lowered))
+            elif isinstance(t, ast.Tuple) and isinstance(s_.value, ast.Call) and isinstance(s_.value.func, ast.Attribute) and s_.value.func.attr == 'groups':
+                for i_, e_ in enumerate(t.elts):
+                    if isinstance(e_, ast.Name) and e_.id == name:
+                        out.add((i_ + 1, False))
+        return out
+    # {date:FORMAT}: inside the column loop the date format is written only for the date field and only from the format group
+    dsts = [s_ for s_ in ast.walk(lp) if isinstance(s_, ast.Assign) and any(isinstance(t, ast.Name) and t.id == 'date_format' for t in s_.targets)]
+    ok = bool(dsts)
+    for s_ in dsts:
+        v = s_.value
+        from_fmt = isinstance(v, ast.Name) and {k for k, _ in group_of(v.id)} == {3} or (
+            isinstance(v, ast.Call) and isinstance(v.func, ast.Attribute) and v.func.attr == 'group' and len(v.args) == 1 and isinstance(v.args[0], ast.Constant) and v.args[0].value == 3)
+        ok = ok and from_fmt and ("field_name == 'date'", True) in cfg.guard_literals_within(s_, lp)
+    ctx.check(ok, 'C18.R2', pf, 'date-format', '{date:FORMAT} sets the date format', 'the date format specifier is not taken from the format group of the date field', dsts[0] if dsts else None)
+    keys = {src(s_.targets[0].slice) for s_ in stores}
+    ok = bool(keys) and all(k.isidentifier() and group_of(k) == {(2, True)} for k in keys)
+    ctx.check(ok, 'C18.R2', pf, 'name-lowered', 'field names are the lower-cased name group', f'the column key {sorted(keys)} is not the lower-cased name group of the pattern')
 
 def r3_r4(ctx: Ctx, pf: FuncInfo) -> None:
     proj = ctx.proj
@@ -251,6 +307,25 @@ def r3_r4(ctx: Ctx, pf: FuncInfo) -> None:
     for c in ast.walk(ad.node):
         if isinstance(c, ast.Call) and call_name(c) == 'FormatSpec':
             kw = {k.arg: src(k.value) for k in c.keywords}
+    # one header names one column: within one turn of the header loop at most one column variable / table entry receives the index.  (Two columns
+    # with the same index make inspect report overlapping columns and suggest a string that lacks one of the required fields.)
+    afl = get_flow(proj, ad)
+    hloops = [s_ for s_ in afl.cfg.stmts() if isinstance(s_, ast.For) and isinstance(s_.iter, ast.Call) and call_name(s_.iter) == 'enumerate'
+              and isinstance(s_.target, ast.Tuple) and len(s_.target.elts) == 2 and isinstance(s_.target.elts[0], ast.Name)]
+    if len(hloops) != 1:
+        ctx.unknown('C18.R4', ad, f'{len(hloops)} enumerate loops over the header row in the detector')
+    hl = hloops[0]
+    hidx = hl.target.elts[0].id
+    cstores = [s_ for s_ in afl.cfg.stmts() if isinstance(s_, ast.Assign) and isinstance(s_.value, ast.Name) and s_.value.id == hidx and any(a is hl for a in ancestors(s_))]
+    if len(cstores) < 1:
+        ctx.unknown('C18.R4', ad, 'no store of the header index found in the detector loop')
+    def later_same_turn(a, b) -> bool:
+        g_ = afl.cfg
+        return any(g_.reachable_without(m_, g_.nid(b), {g_.nid(hl)}, skip_exc=True) for m_ in g_.g.successors(g_.nid(a)) if m_ != g_.nid(hl))
+    clash = [(a, b) for a in cstores for b in cstores if later_same_turn(a, b)]
+    ctx.check(not clash, 'C18.R4', ad, 'detector:one-column-per-header', 'a header gives its index to at most one column',
+              (f'after {src(clash[0][0])!r} the same header can still reach {src(clash[0][1])!r}: one header is claimed by two columns (`Payment Date` is both the date and the amount), '
+               f'inspect reports overlapping columns and the suggested string lacks a required field') if clash else '', clash[0][0] if clash else None)
     adbound = {n.id for n in ast.walk(ad.node) if isinstance(n, ast.Name) and isinstance(n.ctx, ast.Store)}
     if not {'date_col', 'desc_col', 'amount_col'} <= adbound:
         # the detector does not keep one variable per column any more (a table of header patterns filling a dict, say)
